@@ -19,6 +19,16 @@
 //   INJ c bits       set_revents(bits) + handleEvent on the epoll-side object (dispatch table)
 //   POLL k:bits ...  predicted readiness of the open descriptors (checked against raw poll(2));
 //                    both pollers poll(0); active lists sorted by channel; then handleEvent on each
+//   TIE c | DROP c   Channel::tie() both objects of c to an owner token | destroy the owner
+//   ON c kind op c2  script: when the <kind> callback (read|write|close|error) of c runs, call
+//                    op (ER|DR|EW|DW|DA|RM) on c2;  OFF forgets all scripts
+//   LOOP k:bits ...  ONE iteration of the real EventLoop::loop() per back-end (poller_ pointed at it,
+//                    poll time-out forced to 0 by --wrap, quit() queued as a pending functor): poll,
+//                    dispatch of the activeChannels_ snapshot with the scripted callbacks, in the
+//                    order the poller produced.  A scripted op that violates a precondition (Channel
+//                    API, EventLoop::removeChannel's assert) is not executed: that side prints
+//                    "rejected" and is dead for the rest of the case.  (A trailing order=.. token is
+//                    for the model runner and ignored here.)
 // Output: one line per op.  Channel-API preconditions (the documented asserts of Channel /
 // EventLoop::updateChannel users: one registered channel per descriptor, remove() only when
 // registered and isNoneEvent(), destroy only after remove()) are tested on the driver's own
@@ -78,10 +88,30 @@ static Desc g_desc[MAXFD];
 
 struct Obj
 {
-  Channel* e; Channel* p; int fd; bool alive; bool reg;
+  Channel* e; Channel* p; int fd; bool alive; bool reg[2];   // reg[0]: epoll side, reg[1]: poll side
+  std::shared_ptr<int> owner;
 };
 static Obj g_obj[MAXCH];
 static std::vector<string> g_cbE, g_cbP;
+static bool g_dead[2];            // a side whose batch was rejected is not touched again in this case
+
+struct Script { int c; string kind; string op; int c2; };
+static std::vector<Script> g_scripts;
+static bool g_inBatch = false;    // inside LOOP: callbacks execute their scripts
+static int g_side = 0;            // side the running batch belongs to
+static bool g_batchRejected = false;
+static volatile bool g_zeroTimeout = false;
+
+extern "C" int __real_epoll_wait(int, struct epoll_event*, int, int);
+extern "C" int __wrap_epoll_wait(int epfd, struct epoll_event* ev, int maxev, int timeout)
+{
+  return __real_epoll_wait(epfd, ev, maxev, g_zeroTimeout ? 0 : timeout);
+}
+extern "C" int __real_poll(struct pollfd*, nfds_t, int);
+extern "C" int __wrap_poll(struct pollfd* fds, nfds_t n, int timeout)
+{
+  return __real_poll(fds, n, g_zeroTimeout ? 0 : timeout);
+}
 
 static EventLoop* g_loop;
 static EPollPoller* g_ep;
@@ -177,15 +207,20 @@ static int cidOf(Channel* ch, bool epollSide)
 static string stateString()
 {
   std::ostringstream os;
-  // epoll side
-  os << "E{idx=";
   bool first = true;
-  for (int c = 0; c < MAXCH; ++c)
-    if (g_obj[c].alive) { os << (first ? "" : ",") << c << ":" << g_obj[c].e->index() << "/" << g_obj[c].e->events(); first = false; }
-  os << " map=";
-  first = true;
-  for (auto& kv : g_ep->channels_) { os << (first ? "" : ",") << kv.first - FDBASE << ">" << cidOf(kv.second, true); first = false; }
-  os << " kern=" << kernelInterest(g_ep->epollfd_) << " cap=" << g_ep->events_.size() << " kerr=" << g_kerr << "} P{idx=";
+  if (g_dead[0]) os << "E{dead} ";
+  else
+  {
+    os << "E{idx=";
+    for (int c = 0; c < MAXCH; ++c)
+      if (g_obj[c].alive) { os << (first ? "" : ",") << c << ":" << g_obj[c].e->index() << "/" << g_obj[c].e->events(); first = false; }
+    os << " map=";
+    first = true;
+    for (auto& kv : g_ep->channels_) { os << (first ? "" : ",") << kv.first - FDBASE << ">" << cidOf(kv.second, true); first = false; }
+    os << " kern=" << kernelInterest(g_ep->epollfd_) << " cap=" << g_ep->events_.size() << " kerr=" << g_kerr << "} ";
+  }
+  if (g_dead[1]) { os << "P{dead}"; return os.str(); }
+  os << "P{idx=";
   first = true;
   for (int c = 0; c < MAXCH; ++c)
     if (g_obj[c].alive) { os << (first ? "" : ",") << c << ":" << g_obj[c].p->index() << "/" << g_obj[c].p->events(); first = false; }
@@ -217,11 +252,55 @@ static void showState(const char* status)
   printf("%s %s\n", status, stateString().c_str());
 }
 
+static bool fdTaken(int fd, int except, int side);
+
+// precondition of a channel op on one side, tested on the driver's own bookkeeping (a violating op
+// would abort the process); cur >= 0: the op is issued by a callback of channel cur during a batch
+static bool opAllowed(const string& op, int c2, int side, int cur)
+{
+  if (c2 < 0 || c2 >= MAXCH || !g_obj[c2].alive) return false;
+  Obj& o = g_obj[c2];
+  Channel* ch = side == 0 ? o.e : o.p;
+  if (op == "RM")
+  {
+    if (!o.reg[side] || !ch->isNoneEvent()) return false;
+    if (cur >= 0 && c2 != cur)
+    {
+      // EventLoop::removeChannel: assert(currentActiveChannel_ == channel || not in activeChannels_)
+      std::vector<Channel*>& act = g_loop->activeChannels_;
+      if (std::find(act.begin(), act.end(), ch) != act.end()) return false;
+    }
+    return true;
+  }
+  return o.reg[side] || !fdTaken(o.fd, c2, side);
+}
+
+static void doOp(const string& op, int c2, int side)
+{
+  Obj& o = g_obj[c2];
+  Channel* ch = side == 0 ? o.e : o.p;
+  if (op == "ER") ch->enableReading();
+  else if (op == "DR") ch->disableReading();
+  else if (op == "EW") ch->enableWriting();
+  else if (op == "DW") ch->disableWriting();
+  else if (op == "DA") ch->disableAll();
+  else if (op == "RM") { ch->remove(); o.reg[side] = false; return; }
+  o.reg[side] = true;
+}
+
 static void record(std::vector<string>* log, int c, const char* kind)
 {
   char b[64];
   snprintf(b, sizeof b, "%d:%s", c, kind);
   log->push_back(b);
+  if (!g_inBatch || g_batchRejected) return;
+  for (size_t i = 0; i < g_scripts.size(); ++i)
+  {
+    const Script& sc = g_scripts[i];
+    if (sc.c != c || sc.kind != kind) continue;
+    if (!opAllowed(sc.op, sc.c2, g_side, c)) { g_batchRejected = true; return; }
+    doOp(sc.op, sc.c2, g_side);
+  }
 }
 
 static Channel* makeChannel(int c, int fd, std::vector<string>* log)
@@ -243,11 +322,39 @@ static string joinLog(std::vector<string>& v)
   return s;
 }
 
-static bool fdTaken(int fd, int except)
+static bool fdTaken(int fd, int except, int side)
 {
   for (int c = 0; c < MAXCH; ++c)
-    if (c != except && g_obj[c].alive && g_obj[c].reg && g_obj[c].fd == fd) return true;
+    if (c != except && g_obj[c].alive && g_obj[c].reg[side] && g_obj[c].fd == fd) return true;
   return false;
+}
+
+// one real iteration of EventLoop::loop() on one back-end; the active list in dispatch order
+static string loopOnce(int side, std::vector<string>* log)
+{
+  Poller* p = side == 0 ? static_cast<Poller*>(g_ep) : static_cast<Poller*>(g_pp);
+  usePoller(p);
+  std::ostringstream os;
+  g_loop->activeChannels_.clear();
+  if (side == 1 && g_pp->pollfds_.empty())
+  {
+    os << "ok n=0 [] cb=";
+    return os.str();
+  }
+  g_side = side; g_inBatch = true; g_batchRejected = false; g_zeroTimeout = true;
+  g_loop->queueInLoop(std::bind(&EventLoop::quit, g_loop));
+  g_loop->loop();
+  g_zeroTimeout = false; g_inBatch = false;
+  std::vector<Channel*>& act = g_loop->activeChannels_;
+  os << (g_batchRejected ? "rejected" : "ok") << " n=" << act.size();
+  if (side == 0) os << " cap=" << g_ep->events_.size();
+  os << " [";
+  for (size_t i = 0; i < act.size(); ++i)
+    os << (i ? "," : "") << cidOf(act[i], side == 0) << ":" << act[i]->revents_;
+  os << "]";
+  string cbs = joinLog(*log);
+  if (g_batchRejected) g_dead[side] = true; else os << " cb=" << cbs;
+  return os.str();
 }
 
 // one active list -> "c:revents,..." sorted by channel, then handleEvent on each in that order
@@ -270,8 +377,11 @@ static void resetCase()
   for (int c = 0; c < MAXCH; ++c)
   {
     // Channel objects are leaked on purpose: their destructor asserts they were removed
-    g_obj[c].alive = false; g_obj[c].reg = false; g_obj[c].e = NULL; g_obj[c].p = NULL;
+    g_obj[c].alive = false; g_obj[c].reg[0] = g_obj[c].reg[1] = false; g_obj[c].e = NULL; g_obj[c].p = NULL;
+    g_obj[c].owner.reset();
   }
+  g_dead[0] = g_dead[1] = false;
+  g_scripts.clear();
   for (int k = 0; k < MAXFD; ++k)
   {
     if (g_desc[k].open) ::close(FDBASE + k);
@@ -353,6 +463,7 @@ int main()
   bool loopCase = false;
   while (std::getline(std::cin, line))
   {
+    fflush(stdout);                 // everything printed so far survives a crash of the op that follows
     std::vector<string> w = vh::splitWs(line);
     if (w.empty()) continue;
     const string& k = w[0];
@@ -370,7 +481,7 @@ int main()
     if (k == "end") { printf("end\n"); fflush(stdout); continue; }
     if (loopCase) { continue; }
     if (bad) { printf("skipped\n"); continue; }
-    int a = w.size() > 1 && k != "POLL" ? atoi(w[1].c_str()) : 0;
+    int a = w.size() > 1 && k != "POLL" && k != "LOOP" ? atoi(w[1].c_str()) : 0;
 
     // ---------------- environment ops
     if (k == "open")
@@ -433,45 +544,63 @@ int main()
       if (g_obj[a].alive) { showState("rejected"); continue; }
       g_obj[a].e = makeChannel(a, FDBASE + fdk, &g_cbE);
       g_obj[a].p = makeChannel(a, FDBASE + fdk, &g_cbP);
-      g_obj[a].fd = fdk; g_obj[a].alive = true; g_obj[a].reg = false;
+      g_obj[a].fd = fdk; g_obj[a].alive = true; g_obj[a].reg[0] = g_obj[a].reg[1] = false;
+      g_obj[a].owner.reset();
       showState("ok");
     }
     else if (k == "DEL")
     {
       if (a < 0 || a >= MAXCH) { invalid("DEL"); bad = true; continue; }
-      if (!g_obj[a].alive || g_obj[a].reg) { showState("rejected"); continue; }
-      usePoller(g_ep); delete g_obj[a].e;
-      usePoller(g_pp); delete g_obj[a].p;
-      g_obj[a].alive = false;
-      showState("ok");
+      {
+        // ~Channel asserts !addedToLoop_ on each object; a dead side is left alone (its object leaks)
+        bool use[2] = { !g_dead[0], !g_dead[1] };
+        int nuse = 0, nok = 0;
+        for (int side = 0; side < 2; ++side) if (use[side]) { ++nuse; if (g_obj[a].alive && !g_obj[a].reg[side]) ++nok; }
+        if (!g_obj[a].alive || (nuse > 0 && nok == 0)) { showState("rejected"); continue; }
+        if (nok < nuse) { printf("MIXED\n"); bad = true; continue; }
+        if (use[0]) { usePoller(g_ep); delete g_obj[a].e; }
+        if (use[1]) { usePoller(g_pp); delete g_obj[a].p; }
+        g_obj[a].alive = false;
+        showState("ok");
+      }
     }
     else if (k == "ER" || k == "DR" || k == "EW" || k == "DW" || k == "DA")
     {
       if (a < 0 || a >= MAXCH) { invalid("update"); bad = true; continue; }
-      Obj& o = g_obj[a];
-      if (!o.alive || (!o.reg && fdTaken(o.fd, a))) { showState("rejected"); continue; }
-      for (int side = 0; side < 2; ++side)
       {
-        usePoller(side == 0 ? static_cast<Poller*>(g_ep) : static_cast<Poller*>(g_pp));
-        Channel* ch = side == 0 ? o.e : o.p;
-        if (k == "ER") ch->enableReading();
-        else if (k == "DR") ch->disableReading();
-        else if (k == "EW") ch->enableWriting();
-        else if (k == "DW") ch->disableWriting();
-        else ch->disableAll();
+        bool ok[2], use[2] = { !g_dead[0], !g_dead[1] };
+        for (int side = 0; side < 2; ++side) ok[side] = opAllowed(k, a, side, -1);
+        int nuse = 0, nok = 0;
+        for (int side = 0; side < 2; ++side) if (use[side]) { ++nuse; if (ok[side]) ++nok; }
+        if (!g_obj[a].alive || (nuse > 0 && nok == 0)) { showState("rejected"); continue; }
+        if (nok < nuse) { printf("MIXED\n"); bad = true; continue; }
+        for (int side = 0; side < 2; ++side)
+          if (use[side])
+          {
+            usePoller(side == 0 ? static_cast<Poller*>(g_ep) : static_cast<Poller*>(g_pp));
+            doOp(k, a, side);
+          }
+        showState("ok");
       }
-      o.reg = true;
-      showState("ok");
     }
     else if (k == "RM")
     {
       if (a < 0 || a >= MAXCH) { invalid("RM"); bad = true; continue; }
-      Obj& o = g_obj[a];
-      if (!o.alive || !o.reg || !o.e->isNoneEvent()) { showState("rejected"); continue; }
-      usePoller(g_ep); o.e->remove();
-      usePoller(g_pp); o.p->remove();
-      o.reg = false;
-      showState("ok");
+      {
+        bool ok[2], use[2] = { !g_dead[0], !g_dead[1] };
+        for (int side = 0; side < 2; ++side) ok[side] = opAllowed("RM", a, side, -1);
+        int nuse = 0, nok = 0;
+        for (int side = 0; side < 2; ++side) if (use[side]) { ++nuse; if (ok[side]) ++nok; }
+        if (!g_obj[a].alive || (nuse > 0 && nok == 0)) { showState("rejected"); continue; }
+        if (nok < nuse) { printf("MIXED\n"); bad = true; continue; }
+        for (int side = 0; side < 2; ++side)
+          if (use[side])
+          {
+            usePoller(side == 0 ? static_cast<Poller*>(g_ep) : static_cast<Poller*>(g_pp));
+            doOp("RM", a, side);
+          }
+        showState("ok");
+      }
     }
     else if (k == "INJ")
     {
@@ -479,6 +608,45 @@ int main()
       g_obj[a].e->set_revents(atoi(w[2].c_str()));
       g_obj[a].e->handleEvent(Timestamp::now());
       printf("inj cb=%s\n", joinLog(g_cbE).c_str());
+    }
+    else if (k == "TIE" || k == "DROP")
+    {
+      if (a < 0 || a >= MAXCH || !g_obj[a].alive) { invalid("TIE/DROP"); bad = true; continue; }
+      if (k == "TIE")
+      {
+        g_obj[a].owner.reset(new int(a));
+        g_obj[a].e->tie(g_obj[a].owner);
+        g_obj[a].p->tie(g_obj[a].owner);
+        printf("tie\n");
+      }
+      else { g_obj[a].owner.reset(); printf("drop\n"); }
+    }
+    else if (k == "ON")
+    {
+      if (w.size() < 5) { invalid("ON"); bad = true; continue; }
+      Script sc; sc.c = a; sc.kind = w[2]; sc.op = w[3]; sc.c2 = atoi(w[4].c_str());
+      bool kindOk = sc.kind == "read" || sc.kind == "write" || sc.kind == "close" || sc.kind == "error";
+      bool opOk = sc.op == "ER" || sc.op == "DR" || sc.op == "EW" || sc.op == "DW" || sc.op == "DA" || sc.op == "RM";
+      if (!kindOk || !opOk || a < 0 || a >= MAXCH || sc.c2 < 0 || sc.c2 >= MAXCH) { invalid("ON"); bad = true; continue; }
+      g_scripts.push_back(sc);
+      printf("on\n");
+    }
+    else if (k == "OFF") { g_scripts.clear(); printf("off\n"); }
+    else if (k == "LOOP")
+    {
+      std::vector<struct pollfd> raw;
+      for (int d = 0; d < MAXFD; ++d)
+        if (g_desc[d].open) { struct pollfd p; p.fd = FDBASE + d; p.events = POLLIN | POLLPRI | POLLOUT | POLLRDHUP; p.revents = 0; raw.push_back(p); }
+      if (!raw.empty()) ::poll(&raw[0], raw.size(), 0);
+      std::ostringstream env;
+      bool first = true;
+      for (size_t i = 0; i < raw.size(); ++i)
+        if (raw[i].revents) { env << (first ? "" : ",") << raw[i].fd - FDBASE << ":" << raw[i].revents; first = false; }
+      string sE = g_dead[0] ? string("dead") : loopOnce(0, &g_cbE);
+      string sP = g_dead[1] ? string("dead") : loopOnce(1, &g_cbP);
+      printf("loop env=%s E %s | P %s || %s\n", env.str().c_str(), sE.c_str(), sP.c_str(),
+             aliveCount() > 16 ? "big" : stateString().c_str());
+      if (g_dead[0] && g_dead[1]) bad = true;     // nothing left to compare in this case
     }
     else if (k == "POLL")
     {
@@ -492,16 +660,19 @@ int main()
       for (size_t i = 0; i < raw.size(); ++i)
         if (raw[i].revents) { env << (first ? "" : ",") << raw[i].fd - FDBASE << ":" << raw[i].revents; first = false; }
       Poller::ChannelList actE, actP;
-      usePoller(g_ep); g_ep->poll(0, &actE);
+      usePoller(g_ep); if (!g_dead[0]) g_ep->poll(0, &actE);
       // an EventLoop always has its wake-up and timer channels registered, so PollPoller::poll is never
       // entered with an empty pollfds_ (there `&*pollfds_.begin()` would bind a null reference)
-      usePoller(g_pp); if (!g_pp->pollfds_.empty()) g_pp->poll(0, &actP);
+      usePoller(g_pp); if (!g_dead[1] && !g_pp->pollfds_.empty()) g_pp->poll(0, &actP);
       string cbE, cbP;
       size_t nE = actE.size(), nP = actP.size();
       string sE = activeString(actE, true, &g_cbE, &cbE);
       string sP = activeString(actP, false, &g_cbP, &cbP);
-      printf("poll env=%s E n=%zu cap=%zu [%s] cb=%s | P n=%zu [%s] cb=%s\n", env.str().c_str(), nE, g_ep->events_.size(),
-             sE.c_str(), cbE.c_str(), nP, sP.c_str(), cbP.c_str());
+      char partE[64], partP[64];
+      snprintf(partE, sizeof partE, "E n=%zu cap=%zu", nE, g_ep->events_.size());
+      snprintf(partP, sizeof partP, "P n=%zu", nP);
+      printf("poll env=%s %s [%s] cb=%s | %s [%s] cb=%s\n", env.str().c_str(), g_dead[0] ? "E dead" : partE,
+             sE.c_str(), cbE.c_str(), g_dead[1] ? "P dead" : partP, sP.c_str(), cbP.c_str());
     }
     else { invalid("unknown op"); bad = true; continue; }
     fflush(stdout);
